@@ -26,18 +26,34 @@ the documented rules decides, per pattern, whether it matches; then
   * is_ignored(name) is truthy exactly when the reference says so for the
     tree's ignore list, and the .bzrignore lines all arrive in that list.
 
-Mutants this was built against (scratch worktree, all caught except the last):
-  M1 `patterns = patterns[99:]` -> `[100:]` (pattern #100 of a type lost)
-  M2 `patterns[match.lastindex - 1]` -> `patterns[match.lastindex]`... replaced by
-     `patterns[:99]` stored as `patterns[:98]` (wrong pattern reported at the boundary)
-  M3 ExceptionGlobster: `elif self._ignores[1].match` tested before the '!!' list
-  M4 basename prefix `(?:.*/)?(?!.*/)` -> `(?:.*/)?` (basename pattern matches a directory part)
-  M5 `_sub_fullpath` `\\*+` -> `.*` ('*' crosses '/')
-  M6 `_sub_extension`: `pattern[2:]` -> `pattern[1:]`
-  M7 identify: `"/" in pattern` dropped (slash patterns treated as basename)
-  M8 ignores.parse_ignore_file: comment test `startswith("#")` -> `"#" in`
-  H1 harmless: Globster.__init__ builds the three lists with comprehensions, match() uses
-     enumerate — stays clean.
+The extension regex exists in two modelled shapes; the harness reads the live
+`Globster.pattern_info` and asks the model for the matching one ('greedy' =
+shared prefix `(?:.*\\.)`, the current code; 'inorder' = each alternative
+carries its own `.*\\.`, the patch proposed with finding ext-multidot-regroup).
+
+FINDING on the unchanged code (family `ext-multidot-regroup`): with two
+extension patterns that match a name at different dots (`*.a.b`, `*.b` on
+`x.a.b`) the reported pattern depends on whether both fall into the same group
+of 99 (greedy shared prefix tries the last dot first for the whole group).
+
+Mutants this was built against (scratch worktree; all caught by the oracle with
+a concrete input unless noted):
+  M1  `patterns = patterns[99:]` -> `[100:]` (pattern #100 of a type lost)
+  M2  stored `patterns[:99]` -> `patterns[1:99]` (IndexError / wrong pattern)
+  M2b `patterns[match.lastindex - 1]` -> `[max(lastindex - 2, 0)]`
+  M2c regex built from `patterns[:98]`, list keeps 99 (pattern #99 of each group never matches)
+  M3  ExceptionGlobster tests the '!' list before the '!!' list
+  M4  basename prefix `(?:.*/)?(?!.*/)` -> `(?:.*/)?`
+  M5  `_sub_fullpath` `\\*+` -> `.*` ('*' crosses '/')
+  M6  `_sub_extension`: `pattern[2:]` -> `pattern[1:]`
+  M7  identify: `"/" in pattern` dropped
+  M8  ignores.parse_ignore_file: `startswith("#")` -> `"#" in` (tree stream)
+  M10 `**/` -> `(?:.*/)` (not optional)
+  M11 canonicalisation rule `(?:\\.?/)+` of `_sub_fullpath` dropped
+  M12 ExceptionGlobster: `p[2:]` -> `p[1:]` for '!!' patterns
+  Mshape extension prefix without `(?!.*/)` (also: shape not recognised -> tie broken)
+  H1  harmless: Globster.__init__ builds the three lists with comprehensions — clean.
+  FIX the proposed patch (own `.*\\.` per extension alternative): 0 violations, 0 mismatches.
 """
 import functools
 
